@@ -31,8 +31,9 @@ def bump(k, n=1):
 
 # inputs kept from earlier failures, run first
 PANOC_CORPUS = [
-    # eager_gradient_eval + Ipopt + a problem using the m-workspace as scratch: Converged with reported ε = 0.978 ≤ 1,
-    # documented ε = 2.333 (known finding C06-panoc-eager-workspace-as-yhat)
+    # regression op of the repaired finding C06-panoc-eager-workspace-as-yhat: eager_gradient_eval + Ipopt + a problem
+    # using the m-workspace as scratch — the unrepaired solver reported Converged with ε = 0.978 ≤ 1 where the
+    # documented ε is 2.333
     'run solver=panoc dir=adv n=2 m=3 Q=4:4013000000000000,3ffc000000000000,3ffc000000000000,3ff8000000000000 c=2:401a000000000000,c019000000000000 q4=2:0000000000000000,3ff0000000000000 A=6:bfe0000000000000,0000000000000000,0000000000000000,bfe0000000000000,3ff0000000000000,bff0000000000000 b=3:0000000000000000,0000000000000000,0000000000000000 Clb=2:fff0000000000000,c010000000000000 Cub=2:7ff0000000000000,c00c000000000000 Dlb=3:c006000000000000,3fe8000000000000,fff0000000000000 Dub=3:7ff0000000000000,7ff0000000000000,7ff0000000000000 l1=0: x0=2:4002000000000000,4004000000000000 y0=3:0000000000000000,0000000000000000,0000000000000000 Sig=3:3fe0000000000000,4050000000000000,4000000000000000 maxiter=60 tol=3ff0000000000000 crit=8 maxnp=2 overwrite=1 updcand=1 recomp=0 eager=1 force=0 mem=2 advseed=600 L0=0000000000000000 stopat=0 stopcb=0 nanat=0 oot=0 wmscratch=1',
 ]
 
@@ -255,9 +256,6 @@ def monitor(op_line, out_line, st, flavor='panoc'):
         if flavor in ('panoc', 'zerofpr', 'pantr') and op.nat('nanat', 0) == 0:
             m = stale_gradient(op, last, need_gh)
             if m:
-                if flavor == 'panoc' and op.nat('eager', 0) and op.nat('wmscratch', 0):
-                    import loopmon          # ∇ψ(x̂) recomputed from the workspace "ŷ" after an interrupted line search
-                    return m, loopmon.KEY_EAGER_YHAT
                 return m
         # the written-back x is the x̂ of that iterate
         wrote = status in ('Converged', 'Interrupted') or P['overwrite']
